@@ -448,9 +448,9 @@ public:
 	*/
 	Array& append(const Array& b)
 	{
-		int n=length();
-		resize(length()+b.length());
-		for (int i=0; i<b.length(); i++)
+		int n=length(), nb=b.length(); // b may be this same array: its length changes in resize()
+		resize(n+nb);
+		for (int i=0; i<nb; i++)
 			_a[n+i] = b[i];
 		return *this;
 	}
